@@ -331,6 +331,7 @@ class Run:
         self.n_gather = 0
         self.actor_cur: dict = {}
         self.open_await: dict = {}
+        self.self_cancelled: set = set()
         self.actor_tasks: list[asyncio.Task] = []
         self.actor_state: dict[int, Any] = {}
         self.actor_events: dict[int, list] = {}
@@ -459,7 +460,15 @@ class Run:
                     wal = os.path.join(self.workdir, 'a', 'b', f'{d["name"]}.jsonl')
                 else:
                     wal = os.path.join(self.workdir, f'{d["name"]}.jsonl')
-            b = (TracedBus2 if d.get('sub') else TracedBus)(name=d['name'], parallel_handlers=bool(d.get('par')), max_history_size=d.get('hist'), wal_path=wal)
+            cls_ = TracedBus2 if d.get('sub') else TracedBus
+            try:
+                b = cls_(name=d['name'], parallel_handlers=bool(d.get('par')), max_history_size=d.get('hist'), wal_path=wal)
+            except AssertionError:
+                # a name the constructor rejects loudly (fine): the program goes on with a conventional one
+                self.rec('bus_name_rejected', bus=i, name=d['name'])
+                d = dict(d, name='X' + d['name'].lstrip('_'))
+                self.sc['buses'][i] = d
+                b = cls_(name=d['name'], parallel_handlers=bool(d.get('par')), max_history_size=d.get('hist'), wal_path=wal)
             b._run = self
             b._idx = i
             self.buses[i] = b
@@ -725,6 +734,17 @@ class Run:
                     c = self.mk(TYPES.index(type(event)), {'payload': {'depth': d + 1}})
                     if self._dispatch(c, b, by, parent_tag) and mode == 'await':
                         await self._await_event(c, by)
+            elif k == 'raise_cancelled':
+                # the handler awaits a task of its own that somebody cancelled: CancelledError propagates out of the HANDLER although
+                # nobody cancelled the handler or the bus
+                async def _inner():
+                    await asyncio.sleep(10)
+                t_ = asyncio.get_running_loop().create_task(_inner())
+                self.keep.append(t_)
+                await asyncio.sleep(op[1] if len(op) > 1 else 0)
+                t_.cancel()
+                self.self_cancelled.add(by)
+                await t_
             elif k == 'raise':
                 # (a StopIteration cannot leave an `async def` as itself - PEP 479 turns it into RuntimeError at the coroutine boundary,
                 # before the bus sees it - so async handlers raise something else in its place)
@@ -825,7 +845,7 @@ class Run:
                 ptag = next((p_ for p_, cs in self.children.items() if me in cs), None)
                 if ptag is not None:
                     self._dispatch(self.events[ptag], op[1], by, None)
-            elif k in ('sleep', 'spawn', 'await_shared', 'await_actor', 'stop_bus', 'gather', 'step', 'redisp_actor'):
+            elif k in ('sleep', 'spawn', 'await_shared', 'await_actor', 'stop_bus', 'gather', 'step', 'redisp_actor', 'raise_cancelled'):
                 continue  # not expressible in a sync handler
             else:
                 raise AssertionError(f'unknown op {op}')
@@ -860,7 +880,11 @@ class Run:
             out, eid, et = 'ret', 0, None
             try:
                 return await run._prog(prog, inv, event, run.tag_of(event), True)
-            except asyncio.CancelledError:
+            except asyncio.CancelledError as ex:
+                if inv in run.self_cancelled:
+                    out, eid, et = 'raise', id(ex), 'CancelledError'
+                    run.keep.append(ex)
+                    raise
                 out = 'cancel'
                 run.rec('h_cancelled', inv=inv)
                 if h.get('cleanup'):
